@@ -176,8 +176,8 @@ theorem hasTok_pollStart {s : St} {x t : Nat} (h : hasTok (doPollStart s) x t) :
     simp only [hasTok, handKey] at h ⊢; simp [hpc, handKey] at h ⊢; exact h
   · exact h
 
-theorem hasTok_A {s : St} {x t : Nat} (hpc : s.pc = .a) (h : hasTok (doA s) x t) : hasTok s x t := by
-  unfold doA at h
+theorem hasTok_A {s : St} {x t : Nat} (hpc : s.pc = .a) (h : hasTok (doAcore s) x t) : hasTok s x t := by
+  unfold doAcore at h
   split at h
   · simp only [hasTok, handKey] at h ⊢; simp [hpc, handKey] at h ⊢; exact h
   · rename_i t0 k rest hsome
@@ -197,11 +197,11 @@ theorem hasTok_A {s : St} {x t : Nat} (hpc : s.pc = .a) (h : hasTok (doA s) x t)
       · exact Or.inr (Or.inl h)
       · simp [hpc, handKey] at h
 
-theorem hasTok_B {s : St} {t0 k x t : Nat} (hpc : s.pc = .b t0 k) (h : hasTok (doB s t0 k) x t) :
+theorem hasTok_B {s : St} {t0 k x t : Nat} (hpc : s.pc = .b t0 k) (h : hasTok (doBcore s t0 k) x t) :
     hasTok s x t := by
   cases hq : (s.peer k).q with
   | cons item q' =>
-    simp only [doB, hq, hasTok] at h
+    simp only [doBcore, hq, hasTok] at h
     rcases h with h | h | h
     · exact Or.inl h
     · by_cases hx : x = k
@@ -211,13 +211,13 @@ theorem hasTok_B {s : St} {t0 k x t : Nat} (hpc : s.pc = .b t0 k) (h : hasTok (d
       exact Or.inr (Or.inr (by simp [hpc, handKey, pcTicket, h]))
   | nil =>
     by_cases hcl : (s.peer k).closed = true
-    · simp only [doB, hq, hcl, ↓reduceIte, hasTok] at h
+    · simp only [doBcore, hq, hcl, ↓reduceIte, hasTok] at h
       rcases h with h | h | h
       · exact Or.inl h
       · exact Or.inr (Or.inl h)
       · simp [handKey, pcTicket] at h
         exact Or.inr (Or.inr (by simp [hpc, handKey, pcTicket, h]))
-    · simp only [doB, hq, hcl, ↓reduceIte, hasTok] at h
+    · simp only [doBcore, hq, hcl, ↓reduceIte, hasTok] at h
       rcases h with h | h | h
       · exact Or.inl h
       · by_cases hx : x = k
@@ -225,6 +225,41 @@ theorem hasTok_B {s : St} {t0 k x t : Nat} (hpc : s.pc = .b t0 k) (h : hasTok (d
           exact Or.inr (Or.inr (by simp [hpc, handKey, pcTicket, h]))
         · simp [upd, hx] at h; exact Or.inr (Or.inl h)
       · simp [handKey] at h
+
+theorem doA_cases (s : St) : doA s = yieldNow s ∨ doA s = doAcore s := by
+  unfold doA; split
+  · split <;> simp
+  · simp
+
+theorem doB_cases (s : St) (t k : Nat) : doB s t k = doBex s t k ∨ doB s t k = doBcore s t k := by
+  unfold doB; split <;> simp
+
+theorem hasTok_yield {s : St} {x t : Nat} (hpc : s.pc = .a) (h : hasTok (yieldNow s) x t) : hasTok s x t := by
+  simp only [yieldNow, hasTok, handKey] at h ⊢; simp [hpc, handKey] at h ⊢; exact h
+
+theorem hasTok_Bex {s : St} {t0 k x t : Nat} (hpc : s.pc = .b t0 k) (h : hasTok (doBex s t0 k) x t) :
+    hasTok s x t := by
+  simp only [doBex, fire, hasTok] at h
+  rcases h with h | h | h
+  · simp at h
+    rcases h with ⟨rfl, rfl⟩ | h
+    · exact Or.inr (Or.inr (by simp [hpc, handKey, pcTicket]))
+    · exact Or.inl h
+  · exact Or.inr (Or.inl h)
+  · simp [handKey] at h
+
+theorem hasTok_A' {s : St} {x t : Nat} (hpc : s.pc = .a) (h : hasTok (doA s) x t) : hasTok s x t := by
+  rcases doA_cases s with e | e <;> rw [e] at h
+  · exact hasTok_yield hpc h
+  · exact hasTok_A hpc h
+
+theorem hasTok_B' {s : St} {t0 k x t : Nat} (hpc : s.pc = .b t0 k) (h : hasTok (doB s t0 k) x t) :
+    hasTok s x t := by
+  rcases doB_cases s t0 k with e | e <;> rw [e] at h
+  · exact hasTok_Bex hpc h
+  · exact hasTok_B hpc h
+
+theorem hasTok_exhaust {s : St} {x t : Nat} (h : hasTok { s with exhausted := true } x t) : hasTok s x t := h
 
 theorem hasTok_C {s : St} {t0 k x t : Nat} {r : Res} (hpc : s.pc = .c t0 k r) (h : hasTok (doC s k r) x t) :
     hasTok s x t ∨ (x = k ∧ t = s.counter ∧ ∃ item, r = .some item) := by
@@ -272,14 +307,15 @@ theorem hasTok_step {s : St} {op : Op} {x t : Nat} (h : hasTok (step s op) x t) 
   | recvStep =>
     simp only [step, doRecv] at h ⊢
     split at h
-    · rename_i hpc; exact Or.inl (hasTok_A hpc h)
-    · rename_i t0 k hpc; exact Or.inl (hasTok_B hpc h)
+    · rename_i hpc; exact Or.inl (hasTok_A' hpc h)
+    · rename_i t0 k hpc; exact Or.inl (hasTok_B' hpc h)
     · rename_i t0 k r hpc
       rcases hasTok_C hpc h with h | h
       · exact Or.inl h
       · obtain ⟨_, ht, item, rfl⟩ := h
         exact Or.inr ⟨ht, by simp [hpc, doC]⟩
     · exact Or.inl h
+  | exhaust => exact Or.inl h
 
 theorem counter_mono (s : St) (op : Op) : s.counter ≤ (step s op).counter := by
   cases op with
@@ -297,10 +333,16 @@ theorem counter_mono (s : St) (op : Op) : s.counter ≤ (step s op).counter := b
   | recvStep =>
     simp only [step, doRecv]
     split
-    · simp only [doA]; split <;> (try split) <;> simp
-    · simp only [doB]; split <;> (try split) <;> simp
+    · rcases doA_cases s with e | e <;> rw [e]
+      · simp [yieldNow]
+      · simp only [doAcore]; split <;> (try split) <;> simp
+    · rename_i t0 k0 _
+      rcases doB_cases s t0 k0 with e | e <;> rw [e]
+      · simp [doBex, fire]
+      · simp only [doBcore]; split <;> (try split) <;> simp
     · rename_i r _; cases r <;> simp [doC]
     · simp
+  | exhaust => simp [step]
 
 
 theorem tickLt_step {s : St} (op : Op) (h : TickLt s) : TickLt (step s op) := by
@@ -373,23 +415,29 @@ theorem noneQ_step {s : St} (op : Op) (h : NoneQ s) : NoneQ (step s op) := by
     | idle => simp only [step, doRecv, hp] at hpc ⊢; simp [hp] at hpc
     | parked => simp only [step, doRecv, hp] at hpc ⊢; simp [hp] at hpc
     | a =>
-      simp only [step, doRecv, hp, doA] at hpc ⊢
-      split at hpc
-      · simp at hpc
-      · split at hpc <;> simp [hp] at hpc
+      simp only [step, doRecv, hp] at hpc ⊢
+      rcases doA_cases s with e | e <;> rw [e] at hpc ⊢
+      · simp [yieldNow] at hpc
+      · simp only [doAcore] at hpc ⊢
+        split at hpc
+        · simp at hpc
+        · split at hpc <;> simp [hp] at hpc
     | b t0 k0 =>
       simp only [step, doRecv, hp] at hpc ⊢
+      rcases doB_cases s t0 k0 with e | e <;> rw [e] at hpc ⊢
+      · simp [doBex, fire] at hpc
       cases hq : (s.peer k0).q with
-      | cons item q' => simp [doB, hq] at hpc
+      | cons item q' => simp [doBcore, hq] at hpc
       | nil =>
         by_cases hcl : (s.peer k0).closed = true
-        · simp [doB, hq, hcl] at hpc ⊢
+        · simp [doBcore, hq, hcl] at hpc ⊢
           obtain ⟨rfl, rfl⟩ := hpc
           exact ⟨hq, hcl⟩
-        · simp [doB, hq, hcl] at hpc
+        · simp [doBcore, hq, hcl] at hpc
     | c t0 k0 r =>
       simp only [step, doRecv, hp] at hpc ⊢
       cases r <;> simp [doC] at hpc
+  | exhaust => exact h t k hpc
 
 theorem noneQ_init : NoneQ ({} : St) := by intro t k h; simp at h
 
@@ -426,13 +474,14 @@ theorem hasTok_step_old {s : St} {op : Op} {x t : Nat} (hl : live s x) (hnd : de
     cases hp : s.pc with
     | idle => simp only [step, doRecv, hp] at h; exact h
     | parked => simp only [step, doRecv, hp] at h; exact h
-    | a => simp only [step, doRecv, hp] at h; exact hasTok_A hp h
-    | b t0 k0 => simp only [step, doRecv, hp] at h; exact hasTok_B hp h
+    | a => simp only [step, doRecv, hp] at h; exact hasTok_A' hp h
+    | b t0 k0 => simp only [step, doRecv, hp] at h; exact hasTok_B' hp h
     | c t0 k0 r =>
       simp only [step, doRecv, hp] at h
       rcases hasTok_C hp h with h | ⟨rfl, _, item, rfl⟩
       · exact h
       · exact absurd (by simp [delivers, hp]) hnd
+  | exhaust => exact h
 
 theorem owed_step {s : St} {op : Op} {i : Nat} (hinv : Inv s) (hnq : NoneQ s) (ho : owed s i)
     (hnd : delivers s op ≠ some i) (hnr : op ≠ .remove i) : owed (step s op) i := by
@@ -498,7 +547,10 @@ theorem owed_step {s : St} {op : Op} {i : Nat} (hinv : Inv s) (hnq : NoneQ s) (h
         rcases hq with hq | ⟨t, item, hq⟩
         · exact hq
         · simp [hp] at hq
-      simp only [step, doRecv, hp, doA]
+      simp only [step, doRecv, hp]
+      rcases doA_cases s with e | e <;> rw [e]
+      · exact ⟨hl, Or.inl hq'⟩
+      simp only [doAcore]
       split
       · exact ⟨hl, Or.inl hq'⟩
       · rename_i t k rest hsome
@@ -514,21 +566,23 @@ theorem owed_step {s : St} {op : Op} {i : Nat} (hinv : Inv s) (hnq : NoneQ s) (h
         · exact hq
         · simp [hp] at hq
       simp only [step, doRecv, hp]
+      rcases doB_cases s t0 k0 with e | e <;> rw [e]
+      · exact ⟨hl, Or.inl hq'⟩
       by_cases hik : i = k0
       · subst hik
         cases hqq : (s.peer i).q with
         | nil => exact absurd hqq hq'
         | cons item q' =>
-          simp only [doB, hqq]
+          simp only [doBcore, hqq]
           exact ⟨hl, Or.inr ⟨t0, item, rfl⟩⟩
       · cases hqq : (s.peer k0).q with
         | cons item q' =>
-          simp only [doB, hqq]
+          simp only [doBcore, hqq]
           exact ⟨hl, Or.inl (by simpa [upd, hik] using hq')⟩
         | nil =>
           by_cases hcl : (s.peer k0).closed = true
-          · simp only [doB, hqq, hcl, ↓reduceIte]; exact ⟨hl, Or.inl hq'⟩
-          · simp only [doB, hqq, hcl, ↓reduceIte]
+          · simp only [doBcore, hqq, hcl, ↓reduceIte]; exact ⟨hl, Or.inl hq'⟩
+          · simp only [doBcore, hqq, hcl, ↓reduceIte]
             exact ⟨hl, Or.inl (by simpa [upd, hik] using hq')⟩
     | c t0 k0 r =>
       simp only [step, doRecv, hp]
@@ -567,6 +621,7 @@ theorem owed_step {s : St} {op : Op} {i : Nat} (hinv : Inv s) (hnq : NoneQ s) (h
           · exact Or.inl hq
           · simp [hp] at hq
         · exact ⟨by simpa [live, upd, hik] using hl, Or.inl (hq' hik)⟩
+  | exhaust => exact ⟨hl, hq⟩
 
 
 /-- an owed stream that is not in hand has its (only) token in the heap -/
@@ -611,7 +666,10 @@ theorem behind_step {s : St} {op : Op} {i j : Nat} (hinv : Inv s) (htl : TickLt 
       | idle => simp only [step, doRecv, hp]; simp [handKey]
       | parked => simp only [step, doRecv, hp]; simp [handKey]
       | a =>
-        simp only [step, doRecv, hp, doA]
+        simp only [step, doRecv, hp]
+        rcases doA_cases s with e | e <;> rw [e]
+        · simp [yieldNow, handKey]
+        simp only [doAcore]
         split
         · simp [handKey]
         · rename_i t k rest hsome
@@ -626,15 +684,18 @@ theorem behind_step {s : St} {op : Op} {i j : Nat} (hinv : Inv s) (htl : TickLt 
       | b t0 k0 =>
         have hk : k0 ≠ j := by intro e; subst e; exact hhand (by simp [hp, handKey])
         simp only [step, doRecv, hp]
+        rcases doB_cases s t0 k0 with e | e <;> rw [e]
+        · simp [doBex, fire, handKey]
         cases hq : (s.peer k0).q with
-        | cons item q' => simp [doB, hq, handKey]; exact hk
+        | cons item q' => simp [doBcore, hq, handKey]; exact hk
         | nil =>
           by_cases hcl : (s.peer k0).closed = true
-          · simp [doB, hq, hcl, handKey]; exact hk
-          · simp [doB, hq, hcl, handKey]
+          · simp [doBcore, hq, hcl, handKey]; exact hk
+          · simp [doBcore, hq, hcl, handKey]
       | c t0 k0 r =>
         simp only [step, doRecv, hp]
         cases r <;> simp [doC, handKey]
+    | exhaust => simpa [step] using hhand
   · -- tickets stay ordered
     intro ti tj hi hj
     have hi' := hasTok_step_old ho.1 hnd hi
